@@ -273,7 +273,7 @@ class C17(Check):
                 st['loop_in_thread_checked'] += 1
             if e[0] == 'stop_returned':
                 st['stop_checked'] += 1
-        if r.verdict in ('deadlock', 'stepbound') and not res.violations:
+        if r.verdict in ('deadlock', 'stepbound', 'timebound') and not res.violations:
             completed_unreturned = [a for a in ends if a not in rets]
             if completed_unreturned or r.verdict == 'stepbound':
                 res.violate('C17:hang', f'{r.verdict}', blocked=r.blocked)
